@@ -473,6 +473,13 @@ class CallMixin:
             return [(SClass(v.cls.pyclass), st)]
         return [(SClass('object'), st)]
 
+    def bi_issubclass(self, args, kwargs, st, node):
+        a, b = args
+        if isinstance(a, SClass) and isinstance(b, SClass):
+            return [(SBool(exc_isa(a.name, b.name)), st)]
+        # an opaque class (e.g. the exc_type handed to __exit__) may or may not be a subclass
+        return [(SBool(self.fresh(st, 'issubclass', z3.BoolSort())), st)]
+
     def bi_hasattr(self, args, kwargs, st, node):
         obj = args[0]
         if isinstance(obj, SVal):
